@@ -97,33 +97,43 @@ theorem parent_strand_reads (strandArg : Option Strand) (location : Option (Stra
 /-! ## T4 — the two `extract_sequence` paths (the code as it is: a04ad26 + 588ca9c) -/
 
 /-- the model of the CURRENT code: the cached-codon path is guarded by "at least one codon" and returns a `Sequence` -/
-def currentCds {γ : Type} (pathA pathB : γ → List Char) : CdsCfg γ := ⟨pathA, pathB, true⟩
+def currentCds {γ : Type} (pathA pathB : γ → List Char) (chunkCodons totalCodons : γ → Nat) : CdsCfg γ :=
+  ⟨pathA, pathB, true, chunkCodons, totalCodons⟩
 
 /-- T4 (value AND type): if the two code paths compute the same letters — which is C05's theorem about the codon
     walk; here a hypothesis — then every step of EVERY history of
-    {list codon locations, count codons, extract_sequence, has_valid_stop} on the current code answers exactly what
+    {list codon locations, count chunk codons, extract_sequence, has_valid_stop, num_codons} on the current code answers exactly what
     a freshly built object answers to that single question: `extract_sequence()` is the `Sequence` of the in-frame
-    letters whichever path was taken and whatever was memoised, `has_valid_stop` is its boolean, never an error. -/
-theorem extract_history_independent {γ : Type} (pathA pathB : γ → List Char) (c : γ)
+    letters whichever path was taken and whatever was memoised, `has_valid_stop` is its boolean, never an error, and
+    `num_codons` is the codon count of the WHOLE CDS also after the chunk-relative codon locations were listed on a
+    sequence chunk that cuts the CDS (`nChunk c ≠ nTotal c`). -/
+theorem extract_history_independent {γ : Type} (pathA pathB : γ → List Char) (nChunk nTotal : γ → Nat) (c : γ)
     (heq : pathA c = pathB c) (hist : List CdsOp) :
-    (cdsRun (currentCds pathA pathB) (CdsState.fresh c) hist).2 = hist.map (freshAns (pathA c)) :=
-  cdsRun_patched (cfg := currentCds pathA pathB) heq rfl hist
+    (cdsRun (currentCds pathA pathB nChunk nTotal) (CdsState.fresh c) hist).2
+      = hist.map (freshAns (pathA c) (nChunk c) (nTotal c)) :=
+  cdsRun_patched (cfg := currentCds pathA pathB nChunk nTotal) heq rfl hist
     ⟨cdsInv_fresh _ c, by intro v h; simp [CdsState.fresh] at h⟩
 
 /-- … hence the answers meet the decidable spec the `cdshist` operations are checked with -/
-theorem extract_meets_spec {γ : Type} (pathA pathB : γ → List Char) (c : γ)
+theorem extract_meets_spec {γ : Type} (pathA pathB : γ → List Char) (nChunk nTotal : γ → Nat) (c : γ)
     (heq : pathA c = pathB c) (hist : List CdsOp) :
-    okCdsHist (pathA c) hist (cdsRun (currentCds pathA pathB) (CdsState.fresh c) hist).2 = true := by
-  simp [okCdsHist, extract_history_independent pathA pathB c heq hist]
+    okCdsHist (pathA c) (nChunk c) (nTotal c) hist
+      (cdsRun (currentCds pathA pathB nChunk nTotal) (CdsState.fresh c) hist).2 = true := by
+  simp [okCdsHist, extract_history_independent pathA pathB nChunk nTotal c heq hist]
 
 /-- the same for any configuration flagged `repaired` (general form used by the two theorems above) -/
 theorem extract_history_independent_repaired {γ : Type} (cfg : CdsCfg γ) (c : γ)
     (heq : cfg.pathA c = cfg.pathB c) (hw : cfg.repaired = true) (hist : List CdsOp) :
-    (cdsRun cfg (CdsState.fresh c) hist).2 = hist.map (freshAns (cfg.pathA c)) :=
+    (cdsRun cfg (CdsState.fresh c) hist).2
+      = hist.map (freshAns (cfg.pathA c) (cfg.chunkCodons c) (cfg.totalCodons c)) :=
   cdsRun_patched heq hw hist ⟨cdsInv_fresh cfg c, by intro v h; simp [CdsState.fresh] at h⟩
 
 /-- both paths give the letters `ATGTAA` -/
-def currentCfg : CdsCfg Unit := currentCds (fun _ => ['A', 'T', 'G', 'T', 'A', 'A']) (fun _ => ['A', 'T', 'G', 'T', 'A', 'A'])
+def currentCfg : CdsCfg Unit :=
+  currentCds (fun _ => ['A', 'T', 'G', 'T', 'A', 'A']) (fun _ => ['A', 'T', 'G', 'T', 'A', 'A']) (fun _ => 2) (fun _ => 2)
+/-- a CDS of 7 codons on a sequence chunk that retains 2 of them -/
+def chunkCutCfg : CdsCfg Unit :=
+  currentCds (fun _ => ['A', 'T', 'G', 'T', 'A', 'A']) (fun _ => ['A', 'T', 'G', 'T', 'A', 'A']) (fun _ => 2) (fun _ => 7)
 /-- the code BEFORE the repair: cached-codon path unguarded, returns the joined `str` -/
 def beforeRepairCfg : CdsCfg Unit := { currentCfg with repaired := false }
 
@@ -131,9 +141,13 @@ def beforeRepairCfg : CdsCfg Unit := { currentCfg with repaired := false }
 example : currentCfg.pathA () = currentCfg.pathB () := rfl
 example : (cdsRun currentCfg (CdsState.fresh ()) [.listCodons, .extract, .validStop, .extract]).2
     = [.count 2, .seqObj ['A', 'T', 'G', 'T', 'A', 'A'], .bool true, .seqObj ['A', 'T', 'G', 'T', 'A', 'A']] := by decide
+/-- `num_codons` keeps answering the codons of the WHOLE CDS after the chunk-relative codon locations were listed -/
+example : (cdsRun chunkCutCfg (CdsState.fresh ()) [.totalCodons, .numCodons, .totalCodons, .listCodons, .totalCodons]).2
+    = [.count 7, .count 2, .count 7, .count 2, .count 7] := by decide
 /-- a codon-less CDS (2 letters): the guard sends the current code down the ordinary path -/
-example : useCachedPath (currentCds (fun _ : Unit => ['A', 'T']) (fun _ => ['A', 'T']))
-    (listCodons (currentCds (fun _ : Unit => ['A', 'T']) (fun _ => ['A', 'T'])) (CdsState.fresh ())).1 = false := by decide
+example : useCachedPath (currentCds (fun _ : Unit => ['A', 'T']) (fun _ => ['A', 'T']) (fun _ => 0) (fun _ => 0))
+    (listCodons (currentCds (fun _ : Unit => ['A', 'T']) (fun _ => ['A', 'T']) (fun _ => 0) (fun _ => 0))
+      (CdsState.fresh ())).1 = false := by decide
 
 /-! ### before-repair regression facts (defect F-C10a, repaired by a04ad26 + 588ca9c) -/
 
